@@ -388,4 +388,28 @@ theorem wf_changePageContent (f : Bytes → Bytes) (d : Doc) (pg : ObjId) (c : B
     · cases hs; exact wf_setDictEntry _ _ _ _ (wf_addObject d _ h)
   · cases hs; exact h
 
+
+theorem docCompress_keys (f : Bytes → Bytes) (al : ObjId → Bool) (os : Objects) : (docCompress f al os).keys = os.keys := by
+  unfold docCompress Objects.keys
+  rw [List.map_map]
+  apply List.map_congr_left
+  intro p _
+  obtain ⟨id, o⟩ := p
+  simp only [Function.comp]
+  cases o <;> simp
+  split <;> rfl
+
+theorem docDecompress_keys (ext : Ext) (os : Objects) : (docDecompress ext os).keys = os.keys := by
+  unfold docDecompress Objects.keys
+  rw [List.map_map]
+  apply List.map_congr_left
+  intro p _
+  obtain ⟨id, o⟩ := p
+  simp only [Function.comp]
+  cases o <;> simp
+  split <;> rfl
+
+theorem wf_of_keys_eq (d : Doc) (os' : Objects) (h : WF d) (hk : os'.keys = d.objects.keys) : WF { d with objects := os' } :=
+  ⟨fun q hq => h.1 q (by rw [← isSome_of_keys_eq _ _ hk]; exact hq), by unfold Objects.Sorted; rw [hk]; exact h.2⟩
+
 end Lopdf
